@@ -386,7 +386,7 @@ func execHistory(f []string, srv *udpSrv) (string, bool) {
 					results[i].n, results[i].i, results[i].err = dns.VerifCacheDOH(context.Background(), q, bufs[i], rts[i])
 				}()
 			}
-			time.Sleep(30 * time.Millisecond)
+			time.Sleep(8 * time.Millisecond)
 			unlock()
 			wg.Wait()
 			var toks []string
@@ -475,7 +475,7 @@ func execHistory(f []string, srv *udpSrv) (string, bool) {
 					results[i].n, results[i].i, results[i].err = dns.VerifCacheDOH(context.Background(), q, bufs[i], &barrierRT{rts[i], bar})
 				}()
 			}
-			time.Sleep(30 * time.Millisecond)
+			time.Sleep(8 * time.Millisecond)
 			unlock()
 			wg.Wait()
 			var toks []string
@@ -506,6 +506,8 @@ func execHistory(f []string, srv *udpSrv) (string, bool) {
 						al = "none"
 					case string(m.qsec) == string(cache.curMeta.qsec):
 						al = "0"
+					case m.name == q0.Name && string(m.qsec[len(m.qsec)-4:]) == string(cache.curMeta.qsec[len(cache.curMeta.qsec)-4:]):
+						al = "dot"
 					default:
 						al = "x"
 					}
@@ -994,6 +996,17 @@ func (g *cacheGen) history() string {
 			if slowLeft > 0 && r.Chance(20) {
 				lat = 1
 				slowLeft--
+			}
+			if cacheOn && t.mode == "p" && lat == 0 && r.Chance(7) && (o == "E" || o == "S" || strings.HasSuffix(o, ",-,HTTP/2.0") || strings.Contains(o, ",-,HTTP/")) && !strings.Contains(o, ",s1") {
+				// the same query several times at the same moment, on a profile with a history: a
+				// fresh entry serves them all, an expired one is refreshed by all of them side by side
+				f := strings.Split(o, ",")
+				if f[0] != "B" || (len(f) == 5 && f[3] == "-") {
+					ops = append(ops, fmt.Sprintf("C,%d,%s,%s,%s", 2+r.Intn(3), hx([]byte(t.id)), hx(p), o))
+					stored = append(stored, len(ops)-1)
+					c.Stat("op:burst-midhistory")
+					continue
+				}
 			}
 			ops = append(ops, fmt.Sprintf("D,%s,%s,%s,%d,%s", t.mode, hx([]byte(t.id)), hx(p), lat, o))
 			stored = append(stored, len(ops)-1)
